@@ -28,6 +28,7 @@ const (
 	KFHighQcBlock = "KF-C15-highqc-without-block"
 	KFElectPrecom = "KF-C15-election-cert-in-precommit"
 	KFStripBlock  = "KF-C15-evidence-strips-commit-block"
+	KFLockNoEvid  = "KF-C15-lock-loses-evidence"
 )
 
 // PacemakerVulnerable reports whether the Byzantine validators alone reach the pacemaker threshold of bft.Pacemaker().
@@ -66,8 +67,12 @@ type Result struct {
 func (r *Result) Header() string {
 	s := r.S
 	var b strings.Builder
-	fmt.Fprintf(&b, "n=%d power=%v byz=%v mode=%s root=%d h=%d seed=%d fam=%s script=[%s]", s.N, s.Cfg.Power, s.Byzantine(), r.Mode,
-		s.Cfg.RootHeight, s.Height, s.Cfg.Seed, r.Family, strings.Join(r.Script, " "))
+	prior := ""
+	if s.Cfg.PriorEvidence {
+		prior = " prior-double-sign-evidence"
+	}
+	fmt.Fprintf(&b, "n=%d power=%v byz=%v mode=%s root=%d h=%d seed=%d%s fam=%s script=[%s]", s.N, s.Cfg.Power, s.Byzantine(), r.Mode,
+		s.Cfg.RootHeight, s.Height, s.Cfg.Seed, prior, r.Family, strings.Join(r.Script, " "))
 	return b.String()
 }
 
@@ -359,9 +364,20 @@ func RunOn(t *rapid.T, opt Options, cfg bs.Config, mode string, g1, g2 []int) *R
 		}
 		cfg, pl.ok = searchSeed(cfg, 32, func(s *bs.Sim) bool { return anyByzLeadable(s, pl.rootB, pl.r1, hon) })
 	}
+	priorExcluded := false
+	if len(bz) > 0 && rapid.IntRange(0, 3).Draw(t, "priorEvidence") == 0 {
+		if ev.Open(KFLockNoEvid) {
+			priorExcluded = true
+		} else {
+			cfg.PriorEvidence = true
+		}
+	}
 	s := bs.New(cfg)
 	s.StopAt = opt.CutSteps
 	res := &Result{S: s, Mode: mode, G1: g1, G2: g2, Excluded: map[string]int{}}
+	if priorExcluded {
+		res.Excluded[KFLockNoEvid]++
+	}
 	g := &gen{t: t, s: s, opt: opt, res: res, byz: s.Byzantine(), honest: s.Honest(), classes: map[string]bool{}, pl: pl}
 	g.rng = rand.New(rand.NewPCG(rapid.Uint64().Draw(t, "netseed"), 0x5eed))
 	if g.opt.MaxSegments == 0 {
@@ -373,6 +389,7 @@ func RunOn(t *rapid.T, opt Options, cfg bs.Config, mode string, g1, g2 []int) *R
 	if fam == "F5" {
 		g.noise = 2
 	}
+	g.classIf(cfg.PriorEvidence, "height-starts-with-double-sign-evidence")
 	g.class("fam=" + fam)
 	g.class("committee=" + mode)
 	g.class(fmt.Sprintf("n=%d", s.N))
